@@ -14,8 +14,32 @@ own syntax: leaf id `n` ↦ `n`, `branch a b` ↦ `{a,b}`.
   J fmtspec <shape> <text>       the implementation's Display text is `Spec.Tree.tokens shape`
   J rustoracle <name> <shape> <pass|fail:…>   verdict of an oracle that lives in rust-bitcoin
                                  (independent of the code under test): ok iff `pass`
+
+Trees whose leaves REPEAT (the same script at several positions) use leaf LABELS and a
+commutative-canonical term text (`{a,b}` with the textually smaller child first), because equal
+subtrees then have equal hashes:
+  C taprootl <d0,d1,…> <l0,l1,…>   model of Tr::spend_info, leaves labelled l_i
+  J merklespecl <labelled shape> <answer>   the same answer from the specification
+
+Byte-level judges (real SHA-256 tagged hashes, Spec/Bip341.lean; Spec/Bech32m.lean; Spec/Outputs.lean):
+  J trcommit <shape|-> <script hex,…|-> <internal x-only key> <oracle output key> <oracle parity 0|1>
+             <library merkle root|-> <library output key> <library parity> <control block hex,…|->
+        the library's root is the BIP341 root of the tree of those scripts (by position); its output
+        key/parity are what libsecp's tap_tweak gives for the internal key and THAT root (oracle
+        columns); every control block is well-formed, carries version 0xc0, the parity bit, the
+        internal key and exactly the specification's sibling path of its leaf, and folds
+        (`committedRoot`) to the root
+  J traddr <api> <network> <output key> <scriptPubKey hex> <address>   `OP_1 <32>` and the Bech32m address
+  J trwitness <root> <internal x-only key> <parity 0|1> <script hex> <control block hex>
+        the (script, control block) pair that `Tr::get_satisfaction` chose for the witness commits to
+        the tree's root (BIP341 script-path computation), with the right key and parity bit
+  J trleafpk <key hex (33 or 32 bytes)> <script hex>   tapscript of `pk(K)` is `<x-only K> OP_CHECKSIG`
+  J trdepthlimit <shape> <combine verdict> <parse verdict>   accept iff height <= 128, else ERR; never PANIC
 -/
 import MsVerif.Model.TapTree
+import MsVerif.Lemmas.TapTreeBip341
+import MsVerif.Spec.Bech32m
+import MsVerif.Spec.Outputs
 
 namespace MsVerif.Driver
 open MsVerif.Spec MsVerif.Tap
@@ -112,6 +136,104 @@ def tokStr : List (Tok Nat) → String → String
 
 def okbadT (b : Bool) : String := if b then "ok" else "bad"
 
+/-! ### labelled trees: commutative-canonical term text -/
+
+def termCanon : NodeT → String
+  | .leaf id => toString id
+  | .branch a b =>
+    let sa := termCanon a
+    let sb := termCanon b
+    if sb < sa then "{" ++ sb ++ "," ++ sa ++ "}" else "{" ++ sa ++ "," ++ sb ++ "}"
+
+def spendAnswerCanon (rt : NodeT) (items : List (Nat × Nat × List NodeT)) : String :=
+  items.foldl (fun a it =>
+    a ++ "|" ++ toString it.1 ++ ":" ++ toString it.2.1 ++ ":" ++
+      (if it.2.2.isEmpty then "-" else "/".intercalate (it.2.2.map termCanon))) (termCanon rt)
+
+def taprootModelL (tree : TapTree Nat) : String :=
+  match nodesFromTapTree termAlg tree with
+  | none => "PANIC"
+  | some nodes =>
+    match merkleRootOf nodes, leavesOf nodes with
+    | some rt, some items =>
+      spendAnswerCanon rt (items.map (fun it => (it.depth, it.leaf, it.merkleBranch)))
+    | _, _ => "PANIC"
+
+def taprootSpecL (t : Tree Nat) : String :=
+  spendAnswerCanon (Tree.root termAlg t)
+    ((Tree.siblingPaths termAlg t).map (fun p => (p.2.length, p.1, p.2)))
+
+/-! ### byte-level judges -/
+
+def tapHexList (s : String) : Option (List Hash.Bytes) :=
+  if s == "-" then some [] else (s.splitOn ",").mapM Hash.ofHex
+
+/-- replace the leaves of a shape, in pre-order, by the given scripts -/
+def relabel : Tree Nat → List Hash.Bytes → Option (Tree Hash.Bytes × List Hash.Bytes)
+  | .leaf _, [] => none
+  | .leaf _, x :: xs => some (.leaf x, xs)
+  | .node l r, xs =>
+    match relabel l xs with
+    | none => none
+    | some (l', xs) =>
+      match relabel r xs with
+      | none => none
+      | some (r', xs) => some (.node l' r', xs)
+
+def parseBit (s : String) : Option Bool :=
+  if s == "0" then some false else if s == "1" then some true else none
+
+/-- judge one control block against the specification's path of its leaf -/
+def cbJudge (rt ik : Hash.Bytes) (odd : Bool) (i : Nat) (cb : Hash.Bytes)
+    (leaf : Hash.Bytes × List Hash.Bytes) : Option String :=
+  match Bip341.parseControlBlock cb with
+  | none => some s!"bad:cb-format@{i}"
+  | some c =>
+    if c.leafVersion != Bip341.tapscriptVersion then some s!"bad:leaf-version@{i}"
+    else if c.outputKeyOdd != odd then some s!"bad:parity-bit@{i}"
+    else if c.internalKey != ik then some s!"bad:internal-key@{i}"
+    else if c.path.length != leaf.2.length then some s!"bad:depth@{i}"
+    else if c.path != leaf.2 then some s!"bad:path@{i}"
+    else if Bip341.committedRoot c leaf.1 != rt then some s!"bad:commitment@{i}"
+    else none
+
+def cbJudgeAll (rt ik : Hash.Bytes) (odd : Bool) :
+    Nat → List Hash.Bytes → List (Hash.Bytes × List Hash.Bytes) → Option String
+  | _, [], [] => none
+  | i, cb :: cbs, leaf :: leaves =>
+    match cbJudge rt ik odd i cb leaf with
+    | some e => some e
+    | none => cbJudgeAll rt ik odd (i + 1) cbs leaves
+  | _, _, _ => some "bad:leaf-count"
+
+def trCommitJudge (shape : String) (scripts : List Hash.Bytes) (ik oq : Hash.Bytes) (opar : Bool)
+    (lroot : String) (lq : Hash.Bytes) (lpar : Bool) (cbs : List Hash.Bytes) : Option String :=
+  if ik.length != 32 || oq.length != 32 then some "bad:key-size"
+  else if lq != oq then some "bad:output-key"
+  else if lpar != opar then some "bad:output-parity"
+  else if shape == "-" then
+    some (if lroot == "-" && cbs.isEmpty && scripts.isEmpty then "ok" else "bad:key-only")
+  else do
+    let t ← parseShape shape
+    let lroot ← Hash.ofHex lroot
+    match relabel t scripts with
+    | some (tree, []) =>
+      let rp := Tree.rootAndPaths Bip341.alg tree
+      if rp.1 != lroot then pure "bad:merkle-root"
+      else pure ((cbJudgeAll rp.1 ik opar 0 cbs rp.2).getD "ok")
+    | _ => pure "bad:script-count"
+
+def trLeafPkJudge (key script : Hash.Bytes) : String :=
+  let x? : Option Hash.Bytes :=
+    if key.length == 32 then some key
+    else if key.length == 33 && (key.head? == some 0x02 || key.head? == some 0x03) then some key.tail
+    else none
+  match x? with
+  | none => "bad:key"
+  | some x => okbadT (script == [0x20] ++ x ++ [0xac])
+
+def limitVerdict (t : Tree Nat) : String := if Tree.height t ≤ maxDepth then "accept" else "ERR"
+
 def opsTap (kind op : String) (args : List String) : Option String :=
   match kind, op, args with
   | "C", "taproot", [ds] => do
@@ -137,6 +259,43 @@ def opsTap (kind op : String) (args : List String) : Option String :=
     let t ← parseShape shape
     pure (okbadT (tokStr (Tree.tokens t) "" == ans))
   | "J", "rustoracle", [_name, _shape, verdict] => pure (okbadT (verdict == "pass"))
+  | "C", "taprootl", [ds, ls] => do
+    let ds ← parseDepths ds; let ls ← parseDepths ls
+    if ds.length != ls.length then none else
+    pure (taprootModelL (ds.zip ls))
+  | "J", "merklespecl", [shape, ans] => do
+    let t ← parseShape shape
+    pure (okbadT (taprootSpecL t == ans))
+  | "J", "trcommit", [shape, scripts, ik, oq, opar, lroot, lq, lpar, cbs] => do
+    let scripts ← tapHexList scripts; let ik ← Hash.ofHex ik; let oq ← Hash.ofHex oq
+    let opar ← parseBit opar; let lq ← Hash.ofHex lq; let lpar ← parseBit lpar
+    let cbs ← tapHexList cbs
+    trCommitJudge shape scripts ik oq opar lroot lq lpar cbs
+  | "J", "traddr", [_api, net, key, spk, addr] => do
+    let key ← Hash.ofHex key; let spk ← Hash.ofHex spk
+    let want ← Bech32m.p2trAddress net key
+    if key.length != 32 then pure "bad:key-size"
+    else if spk != Outputs.p2tr key then pure "bad:script-pubkey"
+    else if addr != want then pure "bad:address"
+    else pure "ok"
+  | "J", "trwitness", [root, ik, par, script, cb] => do
+    let root ← Hash.ofHex root; let ik ← Hash.ofHex ik; let par ← parseBit par
+    let script ← Hash.ofHex script; let cb ← Hash.ofHex cb
+    match Bip341.parseControlBlock cb with
+    | none => pure "bad:cb-format"
+    | some c =>
+      if c.leafVersion != Bip341.tapscriptVersion then pure "bad:leaf-version"
+      else if c.outputKeyOdd != par then pure "bad:parity-bit"
+      else if c.internalKey != ik then pure "bad:internal-key"
+      else if Bip341.committedRoot c script != root then pure "bad:commitment"
+      else pure "ok"
+  | "J", "trleafpk", [key, script] => do
+    let key ← Hash.ofHex key; let script ← Hash.ofHex script
+    pure (trLeafPkJudge key script)
+  | "J", "trdepthlimit", [shape, comb, parse] => do
+    let t ← parseShape shape
+    let want := limitVerdict t
+    pure (okbadT (comb == want && parse == want))
   | _, _, _ => none
 
 end MsVerif.Driver
